@@ -74,6 +74,9 @@ Inductive case :=
 (* PHYPayload.UnmarshalBinary on bk[off : off+len : off+cap]; snapshot; backing buffer afterwards;
    snapshot after the caller overwrote the whole backing buffer with [scr] *)
 | CDecode (bk : list N) (off len cap : nat) (scr : N) (o1 : outcome phy) (bk1 : list N) (o2 : outcome phy)
+(* direct FHDR.UnmarshalBinary / MACPayload.UnmarshalBinary (exported entry points of their own) likewise *)
+| CFhdrDecode (bk : list N) (off len cap : nat) (scr : N) (o1 : outcome fhdr) (bk1 : list N) (o2 : outcome fhdr)
+| CMacDecode (bk : list N) (off len cap : nat) (scr : N) (o1 : outcome macpayload) (bk1 : list N) (o2 : outcome macpayload)
 (* MACCommand.UnmarshalBinary (proprietary payloads) likewise *)
 | CCmdDecode (bk : list N) (off len cap : nat) (up : bool) (scr : N) (o1 : outcome item) (bk1 : list N) (o2 : outcome item)
 (* exported EncryptFRMPayload(key, uplink, devAddr, fCnt, bk[off:off+len:off+cap]) *)
@@ -125,6 +128,20 @@ Definition check (c : case) : N :=
     code (phyeqb (omap (view h1) r) o1 && bytes_eqb (buffer h1 0) bk1 &&
           match r with Ok f => phyeqb (Ok (view (scribble h1 0 scr) f)) o2 | _ => true end)
          (bytes_eqb bk1 bk && match o1 with Ok _ => phyeqb o1 o2 | _ => true end)
+  | CFhdrDecode bk off len cap scr o1 bk1 o2 =>
+    let s := mkSlice 0 off len cap in
+    let '(h1, r) := h_fhdr_unmarshal s [bk] in
+    let eqo := outcome_eqb fhdr_eqb in
+    code (eqo (omap (view_fhdr h1) r) o1 && bytes_eqb (buffer h1 0) bk1 &&
+          match r with Ok f => eqo (Ok (view_fhdr (scribble h1 0 scr) f)) o2 | _ => true end)
+         (bytes_eqb bk1 bk && match o1 with Ok _ => eqo o1 o2 | _ => true end)
+  | CMacDecode bk off len cap scr o1 bk1 o2 =>
+    let s := mkSlice 0 off len cap in
+    let '(h1, r) := h_mac_unmarshal s [bk] in
+    let eqo := outcome_eqb mac_eqb in
+    code (eqo (omap (view_mac h1) r) o1 && bytes_eqb (buffer h1 0) bk1 &&
+          match r with Ok f => eqo (Ok (view_mac (scribble h1 0 scr) f)) o2 | _ => true end)
+         (bytes_eqb bk1 bk && match o1 with Ok _ => eqo o1 o2 | _ => true end)
   | CCmdDecode bk off len cap up scr o1 bk1 o2 =>
     let s := mkSlice 0 off len cap in
     let '(h1, r) := h_cmd_unmarshal harness_registry up s [bk] in
